@@ -267,6 +267,33 @@ def c_lifted_signature(world, pid, rng):
     return finish(world, pid, [b], rng), {"badsig"}, set()
 
 
+def c_signature_copied_within_transaction(world, pid, rng):
+    """two inputs owned by different keys; one carries a byte-identical copy of the other's (valid) signature --
+    all inputs of a transaction sign the same message, so only the key distinguishes them"""
+    own = world.owned(pid)
+    rng.shuffle(own)
+    pair = None
+    for i in range(len(own)):
+        for j in range(i + 1, len(own)):
+            if own[i][2] != own[j][2] and own[i][1] >= 2 and own[j][1] >= 2:
+                pair = (own[i], own[j])
+                break
+        if pair:
+            break
+    if not pair:
+        return None
+    (r1, v1, k1), (r2, v2, k2) = pair
+    t = sign_each(world, unsigned_tx([r1, r2], [(v1 + v2, rng.choice(world.keys)[1])]), [k1, k2], rng)
+    ins = list(t.inputs)
+    if rng.random() < 0.5:
+        ins[1] = (ins[1][0], ins[1][1], ins[0][2])        # later input reuses the earlier input's signature
+    else:
+        ins[0] = (ins[0][0], ins[0][1], ins[1][2])
+    if rng.random() < 0.3:
+        ins = ins[::-1]
+    return finish(world, pid, [ref.RTx(ins, t.outputs)], rng), {"badsig"}, set()
+
+
 def c_mangled_signature(world, pid, rng):
     t = world.make_rtx(pid, rng, max_in=2)
     if t is None:
@@ -311,6 +338,7 @@ C01_CLASSES = {
     "g-signed-by-other-key": c_signed_by_other_key, "h-altered-after-signing": c_altered_after_signing,
     "i-placeholder-for-signature": c_placeholder_for_signature, "j-lifted-signature": c_lifted_signature,
     "k-mangled-signature": c_mangled_signature, "l-output-locked-to-non-point": c_output_locked_to_non_point,
+    "m-signature-copied-within-transaction": c_signature_copied_within_transaction,
 }
 
 
